@@ -6,7 +6,7 @@ from pyvc import spec as SP
 from pyvc.sym import Sym
 
 META = {
-    "explanation": "get_odesys is executed symbolically up to and through SymbolicSys.from_callback (assumed contract 5.6, given as a stand-in class through the function's own SymbolicSys parameter, no patching): the closure dydt is proved to return, for every substance in substance order, sum_r net_r(s) * k_r * prod c^nu (+ feed terms when cstr), with names = substance names, param_names = parameter keys (plus registered unique keys when parameters are kept free), linear invariants = composition_balance_vectors; binding each free unique key to the value _reg_unique stored reproduces the inlined right-hand side exactly; rate_exprs_cb receives one expression per reaction from the same rate expressions; passive and active substitutions only change which symbols are free; reserved key 'time' is refused; _create_odesys pairs (substance symbol, rate) in substance order",
+    "explanation": "get_odesys is executed symbolically up to and through SymbolicSys.from_callback (assumed contract 5.6, given as a stand-in class through the function's own SymbolicSys parameter, no patching): the closure dydt is proved to return, for every substance in substance order, sum_r net_r(s) * k_r * prod c^nu (+ feed terms when cstr), with names = substance names, param_names = parameter keys (plus registered unique keys when parameters are kept free), linear invariants = composition_balance_vectors; binding each free unique key to the value _reg_unique stored reproduces the inlined right-hand side exactly; rate_exprs_cb receives one expression per reaction from the same rate expressions; passive and active substitutions only change which symbols are free; reserved key 'time' is refused; _create_odesys pairs (substance symbol, rate) in substance order; a rate law that is not mass action enters as it is (no concentration product); feed (cstr) together with free constants, substituted feed concentrations and caller-chosen keys; quantities bound through substitutions / a constants namespace arrive in registry units; both builders are compared natively (sympy) with one hand-written model per system; a name shared by a constant and a substance / the time is refused or answered in different symbols",
     "trusted_base": ["assumed contract 5.6: SymbolicSys.from_callback(cb, names=, param_names=, dep_by_name, par_by_name) calls cb(indep, {name: dep}, {pname: par}, backend) once, stores exprs[i] = returned[names[i]] and refuses a size mismatch (read in the installed pyodesys source; exercised by the bounded translation validation)"],
     "not_decided": ["what pyodesys does with the expressions afterwards (code generation, integration): bounded translation validation and C06"],
     "assumptions": ["system shapes fixed per harness (catalysts, inactive parts, sources, spectators); rate constants and concentrations symbolic"],
@@ -123,8 +123,11 @@ def _inline(name, lays):
         rhs = spec_rhs(ds, ks, conc)
         v.prove("one_equation_per_substance_in_substance_order", list(odesys.names) == SUBST and len(odesys.exprs) == len(SUBST))
         v.prove("right_hand_side_is_NT_times_rates", SP.conj([v.eq(e, rhs[s]) for e, s in zip(odesys.exprs, SUBST)]))
-        v.prove("no_parameters_when_inlined", list(odesys.param_names) == [] and extra["param_keys"] == [] and list(extra["unique"]) == [])
-        v.prove("linear_invariants_absent_without_compositions", odesys.linear_invariants is None)
+        # 'no parameters' = empty collections, whatever their type (a tuple is as good as a list)
+        v.prove("no_parameters_when_inlined", len(odesys.param_names) == 0 and len(extra["param_keys"]) == 0 and len(extra["unique"]) == 0)
+        # 'no invariant reported': None or an empty collection of vectors / of names
+        v.prove("linear_invariants_absent_without_compositions", (odesys.linear_invariants is None or len(odesys.linear_invariants) == 0)
+                and (odesys.linear_invariant_names is None or len(odesys.linear_invariant_names) == 0))
         per_rxn = odesys.cb_exprs
         v.prove("rate_exprs_cb_one_per_reaction", len(per_rxn) == len(ds))
         for i, (d, k) in enumerate(zip(ds, ks)):
@@ -132,7 +135,9 @@ def _inline(name, lays):
             for key, nu in d[0].items():
                 cp = cp * SP.spow(conc[key], nu)
             v.prove("rate_exprs_cb_%d" % i, v.eq(per_rxn[i], k * cp))
-        v.prove("no_cstr", extra["cstr_fr_fc"] is False and extra["unit_registry"] is None and extra["p_units"] is None)
+        # documented: cstr_fr_fc is 'None or (feed-ratio-key, map)' -> without a feed anything false (None, False, ()); no registry -> no units of
+        # parameters (None or empty); 'unit_registry' is not a documented key of extra: only if it is there it must say 'none'
+        v.prove("no_cstr", (not extra["cstr_fr_fc"]) and extra.get("unit_registry") is None and (extra["p_units"] is None or len(extra["p_units"]) == 0))
     return _
 
 
@@ -141,18 +146,30 @@ for _n, _l in layouts().items():
 
 
 def _free(name, lays):
-    @harness("C04", "get_odesys.free_params." + name, functions=[ODE + ":get_odesys", ODE + ":get_odesys.<locals>._reg_unique", ODE + ":get_odesys.<locals>.dydt"], kind="shape-bounded", samples=0, max_paths=300)
+    @harness("C04", "get_odesys.free_params." + name, functions=[ODE + ":get_odesys", ODE + ":get_odesys.<locals>._reg_unique", ODE + ":get_odesys.<locals>.dydt", ODE + ":get_odesys.<locals>.reaction_rates"], kind="shape-bounded", samples=0, max_paths=300)
     def _(v):
         from chempy.kinetics.ode import get_odesys
         rsys, ds, ks = build(v, lays, unique=True)
         odesys, extra = v.call(get_odesys, rsys, include_params=False, SymbolicSys=FakeSymbolicSys)
         uk = ["kk%d" % i for i in range(len(ds))]
-        v.prove("unique_keys_are_parameters_in_reaction_order", list(odesys.param_names) == uk)
-        v.prove("each_key_registered_with_its_own_constant", list(extra["unique"].keys()) == uk and SP.conj([extra["unique"][u] == k for u, k in zip(uk, ks)]))
+        # (the obligation keeps its historical name) the statement does not fix an ORDER of the parameters: exactly the unique keys are parameters,
+        # each once, and -- so that values given by name land on the right symbol -- the names are the reported parameter keys, then the unique keys
+        v.prove("unique_keys_are_parameters_in_reaction_order", sorted(odesys.param_names) == sorted(uk)
+                and list(odesys.param_names) == list(extra["param_keys"]) + [k_ for k_ in extra["unique"] if k_ not in extra["param_keys"]])
+        v.prove("each_key_registered_with_its_own_constant", sorted(extra["unique"].keys()) == sorted(uk) and SP.conj([extra["unique"][u] == k for u, k in zip(uk, ks)]))
         conc = dict(zip(odesys.names, odesys.dep))
         psym = dict(zip(odesys.param_names, odesys.params))
         rhs_free = spec_rhs(ds, [psym[u] for u in uk], conc)
         v.prove("right_hand_side_in_free_symbols", SP.conj([v.eq(e, rhs_free[s]) for e, s in zip(odesys.exprs, SUBST)]))
+        # the rates handed to rate_exprs_cb are those of the same model: one per reaction, in the free symbols
+        per_rxn = odesys.cb_exprs
+        want_rates = []
+        for d, u in zip(ds, uk):
+            cp = 1
+            for key, nu in d[0].items():
+                cp = cp * SP.spow(conc[key], nu)
+            want_rates.append(psym[u] * cp)
+        v.prove("rate_exprs_cb_in_free_symbols", len(per_rxn) == len(ds) and SP.conj([v.eq(r_, w_) for r_, w_ in zip(per_rxn, want_rates)]))
         # binding every registered key to the value stored for it gives the inlined right-hand side
         import z3
         rhs_inl = spec_rhs(ds, ks, conc)
@@ -177,7 +194,8 @@ def _(v):
     lays = layouts()["two_shared"]
     rsys, ds, ks = build(v, lays, named=True)
     odesys, extra = v.call(get_odesys, rsys, include_params=False, SymbolicSys=FakeSymbolicSys)
-    v.prove("named_keys_become_parameters", list(odesys.param_names) == ["kk0", "kk1"] and list(extra["unique"]) == ["kk0", "kk1"])
+    # exactly the two names, each once (no order is part of the statement; the symbols are looked up by name below)
+    v.prove("named_keys_become_parameters", sorted(odesys.param_names) == ["kk0", "kk1"] and sorted(extra["unique"]) == ["kk0", "kk1"])
     conc = dict(zip(odesys.names, odesys.dep))
     psym = dict(zip(odesys.param_names, odesys.params))
     v.prove("rhs_in_named_symbols", SP.conj([v.eq(e, spec_rhs(ds, [psym["kk0"], psym["kk1"]], conc)[s]) for e, s in zip(odesys.exprs, SUBST)]))
@@ -190,6 +208,17 @@ def _(v):
     v.prove("substitution_changes_only_which_symbols_are_free", SP.conj([v.eq(e, spec_rhs(ds, [p3["kk0"], val], conc3)[s]) for e, s in zip(ode3.exprs, SUBST)]))
     out = v.run(get_odesys, rsys, substitutions={"nonexistent": 1.0}, SymbolicSys=FakeSymbolicSys)
     v.prove("unknown_substitution_refused", out.raised(ValueError))
+    # the same for a UNIQUE key of a constant that has a value of its own (MassAction([k1], unique_keys=('kk1',))): the substituted value replaces
+    # the stored one in both modes, and the key is not a parameter
+    rsys_u, ds_u, ks_u = build(v, lays, unique=True)
+    o4, x4 = v.call(get_odesys, rsys_u, include_params=False, substitutions={"kk1": val}, SymbolicSys=FakeSymbolicSys)
+    p4 = dict(zip(o4.param_names, o4.params))
+    v.prove("substituted_unique_key.free.not_a_parameter", list(o4.param_names) == ["kk0"] and "kk1" not in x4["unique"])
+    if list(o4.param_names) == ["kk0"]:
+        v.prove("substituted_unique_key.free.rhs", SP.conj([v.eq(e, spec_rhs(ds_u, [p4["kk0"], val], dict(zip(o4.names, o4.dep)))[s]) for e, s in zip(o4.exprs, SUBST)]))
+    o5, x5 = v.call(get_odesys, rsys_u, include_params=True, substitutions={"kk1": val}, SymbolicSys=FakeSymbolicSys)
+    v.prove("substituted_unique_key.inlined.no_parameters", len(o5.param_names) == 0)
+    v.prove("substituted_unique_key.inlined.rhs", SP.conj([v.eq(e, spec_rhs(ds_u, [ks_u[0], val], dict(zip(o5.names, o5.dep)))[s]) for e, s in zip(o5.exprs, SUBST)]))
 
 
 @harness("C04", "get_odesys.cstr_and_invariants", functions=[ODE + ":get_odesys", "chempy.reactionsystem:ReactionSystem.composition_balance_vectors"], kind="shape-bounded", samples=0, max_paths=300)
@@ -213,17 +242,69 @@ def _(v):
                                  v.eq(odesys.exprs[1], b * rate + p["feedratio"] * (p["fc_B"] - y["B"])),
                                  v.eq(odesys.exprs[2], p["feedratio"] * (p["fc_S"] - y["S"]))]))
     # with a feed nothing is conserved: no vector may be reported as an invariant of this right-hand side
-    v.prove("no_linear_invariants_reported_with_a_feed", odesys.linear_invariants is None and odesys.linear_invariant_names is None)
+    v.prove("no_linear_invariants_reported_with_a_feed", not odesys.linear_invariants and not odesys.linear_invariant_names)      # None or empty
     # without feed: every reported vector w satisfies  w . rhs == rate * (w . net stoichiometry)  -- zero exactly when the reaction conserves that key
     ode0, extra0 = v.call(get_odesys, rsys, SymbolicSys=FakeSymbolicSys)
     y0 = dict(zip(ode0.names, ode0.dep))
     rate0 = k * SP.spow(y0["A"], a)
     inv = ode0.linear_invariants
-    v.prove("one_vector_per_composition_key", inv is not None and len(inv) == 3 and all(len(row) == 3 for row in inv) and ode0.linear_invariant_names == ["0", "1", "8"])
     comp = {"A": {1: 2}, "B": {1: 1, 0: 0}, "S": {8: 1}}
-    for row, key in zip(inv, (0, 1, 8)):
+    cvec = {key: [comp[s_].get(key, 0) for s_ in "ABS"] for key in (0, 1, 8)}      # the composition vector of each key, from the Substances above
+    rows = [list(row) for row in inv] if inv is not None else []
+    inv_names = list(ode0.linear_invariant_names or [])
+    # every reported vector IS the composition vector of one key, the keys that occur with a non-zero amount (1 and 8) are both there, once, and
+    # there is one name per vector; the all-zero vector of key 0 (B spells '0: 0') says nothing: reporting or dropping it are equally good, and the
+    # TEXT of the names (str(key), an element symbol, ...) is not part of the property
+    v.prove("one_vector_per_composition_key", inv is not None and all(row in list(cvec.values()) for row in rows) and rows.count(cvec[1]) == 1 and rows.count(cvec[8]) == 1
+            and len(rows) in (2, 3) and len(inv_names) == len(rows) and len(set(inv_names)) == len(rows), detail="%r %r" % (rows, inv_names))
+    for key in (0, 1, 8):
+        row = cvec[key] if cvec[key] in rows else [0, 0, 0]       # a vector that is not reported (only allowed for key 0, see above) claims nothing
         lhs = sum(row[j] * ode0.exprs[j] for j in range(3))
         v.prove("vector_of_key_%d_is_conserved_iff_the_reaction_conserves_it" % key, v.eq(lhs, rate0 * (b * comp["B"].get(key, 0) - a * comp["A"].get(key, 0))))
+
+
+@harness("C04", "get_odesys.cstr_configurations", functions=[ODE + ":get_odesys", ODE + ":get_odesys.<locals>.dydt", ODE + ":get_odesys.<locals>._reg_unique", "chempy.reactionsystem:ReactionSystem.rates"],
+         kind="shape-bounded", samples=0, max_paths=300)
+def _(v):
+    """the feed of a stirred tank together with the other build configurations: d[s]/dt = (N^T r)_s + fr*(fc_s - [s]) for every substance, where
+    fr and the fc_s are parameters under the keys the caller chose (default 'feedratio', 'fc_<key>'); keeping the rate constant free adds its key
+    to the parameters, substituting a feed concentration removes that key -- the right-hand side changes in nothing else"""
+    from chempy.kinetics.ode import get_odesys
+    from chempy.kinetics.rates import MassAction
+    from chempy.chemistry import Reaction, Substance
+    from chempy.reactionsystem import ReactionSystem
+    k = v.real("k", lo=0, hi=9)
+    a, b = v.int("nu_A", lo=1, hi=3), v.int("nu_B", lo=1, hi=3)
+    subs = lambda: [Substance("B"), Substance("A"), Substance("S")]      # S is a spectator: only the feed term
+    rsys = ReactionSystem([Reaction({"A": a}, {"B": b}, k, checks=())], subs(), checks=())
+    rsys_u = ReactionSystem([Reaction({"A": a}, {"B": b}, MassAction([k], unique_keys=("kf",)), checks=())], subs(), checks=())
+
+    def check(label, o, x, pnames, kc, fr, fc):
+        """kc(p), fr(p), fc(p, s): the rate constant, the feed ratio and the feed concentration of s in terms of the parameter symbols"""
+        v.prove(label + ".parameters", sorted(o.param_names) == sorted(pnames)
+                and list(o.param_names) == list(x["param_keys"]) + [k_ for k_ in x["unique"] if k_ not in x["param_keys"]], detail=repr(o.param_names))
+        if sorted(o.param_names) != sorted(pnames):
+            return
+        y = dict(zip(o.names, o.dep))
+        p = dict(zip(o.param_names, o.params))
+        rate = kc(p) * SP.spow(y["A"], a)
+        net = {"A": -a, "B": b, "S": 0}
+        v.prove(label + ".names", list(o.names) == ["B", "A", "S"])
+        v.prove(label + ".rhs", SP.conj([v.eq(e, net[s] * rate + fr(p) * (fc(p, s) - y[s])) for e, s in zip(o.exprs, "BAS")]))
+        v.prove(label + ".rate_exprs_cb_has_no_feed_term", len(o.cb_exprs) == 1 and v.eq(o.cb_exprs[0], rate))
+        v.prove(label + ".nothing_reported_as_conserved", not o.linear_invariants and not o.linear_invariant_names)
+
+    default = ["feedratio", "fc_A", "fc_B", "fc_S"]
+    o, x = v.call(get_odesys, rsys_u, cstr=True, include_params=False, SymbolicSys=FakeSymbolicSys)
+    check("free_rate_constant", o, x, default + ["kf"], lambda p: p["kf"], lambda p: p["feedratio"], lambda p, s: p["fc_" + s])
+    v.prove("free_rate_constant.registered_value", sorted(x["unique"]) == ["kf"] and x["unique"]["kf"] == k)
+    feedA = v.real("feed_concentration_of_A", lo=0, hi=9)
+    o, x = v.call(get_odesys, rsys, cstr=True, substitutions={"fc_A": feedA}, SymbolicSys=FakeSymbolicSys)
+    check("feed_concentration_substituted", o, x, ["feedratio", "fc_B", "fc_S"], lambda p: k, lambda p: p["feedratio"], lambda p, s: feedA if s == "A" else p["fc_" + s])
+    own = OrderedDict([("B", "inB"), ("A", "inA"), ("S", "inS")])
+    o, x = v.call(get_odesys, rsys, cstr=("flow", own), SymbolicSys=FakeSymbolicSys)
+    check("keys_chosen_by_the_caller", o, x, ["flow", "inA", "inB", "inS"], lambda p: k, lambda p: p["flow"], lambda p, s: p["in" + s])
+    v.prove("keys_chosen_by_the_caller.reported", x["cstr_fr_fc"][0] == "flow" and dict(x["cstr_fr_fc"][1]) == dict(own))
 
 
 @harness("C04", "get_odesys.time_is_reserved", functions=[ODE + ":get_odesys.<locals>.dydt"], kind="shape-bounded", samples=0)
@@ -314,7 +395,7 @@ class _Constants:
         self.__dict__.update(kw)
 
 
-@harness("C04", "get_odesys.constants_and_substitutions", functions=[ODE + ":get_odesys", ODE + ":get_odesys.<locals>.dydt", "chempy.kinetics.rates:MassAction.rate_coeff"], kind="shape-bounded", samples=0, max_paths=300)
+@harness("C04", "get_odesys.constants_and_substitutions", functions=[ODE + ":get_odesys", ODE + ":get_odesys.<locals>.dydt", ODE + ":get_odesys.<locals>.reaction_rates", "chempy.kinetics.rates:MassAction.rate_coeff"], kind="shape-bounded", samples=0, max_paths=300)
 def _(v):
     """which symbols are free and which are bound when both a constants namespace and explicit substitutions are given: an explicit substitution
     wins over the namespace, a namespace value binds the key it names, everything else stays a parameter; the right-hand side is the kinetic model
@@ -342,6 +423,9 @@ def _(v):
         if list(odesys.param_names) == pnames:
             w = want(y, p["temperature"], p["gasconst"] if R is None else R)
             v.prove(label + ".rhs_with_exactly_these_bindings", SP.conj([v.eq(e, w[s]) for e, s in zip(odesys.exprs, "ABC")]))
+            T_, R_ = p["temperature"], p["gasconst"] if R is None else R
+            rates = [(a0 * T_ + R_) * SP.spow(y["A"], n0), (a1 * T_ + R_) * SP.spow(y["B"], n1) * y["C"]]
+            v.prove(label + ".rate_exprs_cb_with_the_same_bindings", len(odesys.cb_exprs) == 2 and SP.conj([v.eq(r_, w_) for r_, w_ in zip(odesys.cb_exprs, rates)]))
 
     o, _x = v.call(get_odesys, rsys, SymbolicSys=FakeSymbolicSys)
     check("nothing_bound", o, list(o.param_names), None)
@@ -357,6 +441,7 @@ def _(v):
     w = want(y, sR, cR)
     v.prove("both_bound.no_free_parameters", list(o.param_names) == [])
     v.prove("both_bound.rhs", SP.conj([v.eq(e, w[s]) for e, s in zip(o.exprs, "ABC")]))
+    v.prove("both_bound.rate_exprs_cb", len(o.cb_exprs) == 2 and SP.conj([v.eq(o.cb_exprs[0], (a0 * sR + cR) * SP.spow(y["A"], n0)), v.eq(o.cb_exprs[1], (a1 * sR + cR) * SP.spow(y["B"], n1) * y["C"])]))
 
 
 @harness("C04", "get_odesys.unit_registry.named_and_numeric_constants", functions=[ODE + ":get_odesys", ODE + ":get_odesys.<locals>.dydt", ODE + ":get_odesys.<locals>.reaction_rates",
@@ -383,15 +468,19 @@ def _(v):
                           [Substance(s) for s in "ABCD"], checks=())
     reg_t = si_value(reg["time"])
     bound = v.real("k4_bound_by_substitution", lo=0, hi=9)
-    for label, kw, names in (("names_free", dict(include_params=False), ["k1", "k4"]),
-                             ("one_name_bound", dict(include_params=False, substitutions={"k4": bound}), ["k1"])):
+    # a name bound to a plain number is taken as a value in registry units; bound to a QUANTITY (bound [ku], ku a generic unit of 1/time) it is
+    # expressed in registry units like the numeric constants: bound * si(ku) * si(registry time)
+    for label, kw, names, k4 in (("names_free", dict(include_params=False), ["k1", "k4"], None),
+                                 ("one_name_bound", dict(include_params=False, substitutions={"k4": bound}), ["k1"], bound),
+                                 ("one_name_bound_to_a_quantity", dict(include_params=False, substitutions={"k4": bound * ku}), ["k1"], bound * si_value(ku) * reg_t)):
         odesys, extra = v.call(get_odesys, rsys, unit_registry=reg, SymbolicSys=FakeSymbolicSys, **kw)
         y = dict(zip(odesys.names, odesys.dep))
         p = dict(zip(odesys.param_names, odesys.params))
-        v.prove(label + ".named_constants_are_the_parameters", list(odesys.param_names) == names)
-        if list(odesys.param_names) != names:
+        v.prove(label + ".named_constants_are_the_parameters", sorted(odesys.param_names) == names)
+        if sorted(odesys.param_names) != names:
             continue
-        p.setdefault("k4", bound)
+        if k4 is not None:
+            p["k4"] = k4
         r = [p["k1"] * y["A"], None, p["k4"] * y["C"], None]
         want = {"A": (-r[0], +1, k3, "D"), "B": (r[0], -1, k2, "B"), "C": (-r[2], +1, k2, "B"), "D": (r[2], -1, k3, "D")}
         for e, s in zip(odesys.exprs, "ABCD"):
@@ -446,7 +535,11 @@ def _(v):
     v.call(get_odesys, rsys2, include_params=False, SymbolicSys=FakeSymbolicSys)
     rsys2.rxns[1].param = "renamed"
     o2, x2 = v.call(get_odesys, rsys2, include_params=False, SymbolicSys=FakeSymbolicSys)
-    v.prove("second_build_uses_the_new_name", list(o2.param_names) == ["kk0", "renamed"])
+    v.prove("second_build_uses_the_new_name", sorted(o2.param_names) == ["kk0", "renamed"])
+    if sorted(o2.param_names) == ["kk0", "renamed"]:
+        p2 = dict(zip(o2.param_names, o2.params))
+        want2 = spec_rhs(ds2, [p2["kk0"], p2["renamed"]], dict(zip(o2.names, o2.dep)))
+        v.prove("second_build_rhs_in_the_new_name", SP.conj([v.eq(e, want2[s]) for e, s in zip(o2.exprs, SUBST)]))
     psyms = OrderedDict((k, Sym(z3.Real("P_" + k))) for k in ("kk0", "renamed"))
     ssyms = OrderedDict((k, Sym(z3.Real("Y_" + k))) for k in SUBST)
     t = Sym(z3.Real("T_time"))
@@ -478,7 +571,7 @@ class ExpSys(FakeSymbolicSys):
         return self
 
 
-@harness("C04", "get_odesys.active_substitution", functions=[ODE + ":get_odesys", ODE + ":get_odesys.<locals>.dydt", ODE + ":get_odesys.<locals>._reg_unique", "chempy.kinetics.rates:Arrhenius.__call__",
+@harness("C04", "get_odesys.active_substitution", functions=[ODE + ":get_odesys", ODE + ":get_odesys.<locals>.dydt", ODE + ":get_odesys.<locals>.reaction_rates", ODE + ":get_odesys.<locals>._reg_unique", "chempy.kinetics.rates:Arrhenius.__call__",
                                                              "chempy.kinetics.rates:RampedTemp.__call__"], kind="shape-bounded", div_mode="assume", samples=0, max_paths=400)
 def _(v):
     """a variable replaced by an EXPRESSION (temperature ramped linearly in time): parameters inlined -> no free symbol, the rate constant is
@@ -498,6 +591,7 @@ def _(v):
     v.assume(T0 + r * o.indep > 1)
     k_t = A0 * sym_exp(-E / (T0 + r * o.indep))
     v.prove("inlined.rhs", SP.conj([v.eq(o.exprs[0], k_t * SP.spow(y["A"], n)), v.eq(o.exprs[1], -n * k_t * SP.spow(y["A"], n))]))
+    v.prove("inlined.rate_exprs_cb", len(o.cb_exprs) == 1 and v.eq(o.cb_exprs[0], k_t * SP.spow(y["A"], n)))
     o2, x2 = v.call(get_odesys, rsys, include_params=False, substitutions=sub, SymbolicSys=ExpSys)
     y2 = dict(zip(o2.names, o2.dep))
     p2 = dict(zip(o2.param_names, o2.params))
@@ -507,6 +601,7 @@ def _(v):
         v.assume(p2["T0"] + p2["dTdt"] * o2.indep > 1)
         kf = p2["Aa"] * sym_exp(-p2["Ea"] / (p2["T0"] + p2["dTdt"] * o2.indep))
         v.prove("free.rhs_in_the_free_symbols", SP.conj([v.eq(o2.exprs[0], kf * SP.spow(y2["A"], n)), v.eq(o2.exprs[1], -n * kf * SP.spow(y2["A"], n))]))
+        v.prove("free.rate_exprs_cb", len(o2.cb_exprs) == 1 and v.eq(o2.cb_exprs[0], kf * SP.spow(y2["A"], n)))
 
 
 @harness("C04", "get_odesys.unit_registry.second_order", functions=[ODE + ":get_odesys", ODE + ":get_odesys.<locals>.dydt", "chempy.util._expr:Expr.dedimensionalisation", "chempy.units:get_derived_unit"],
@@ -539,6 +634,19 @@ def _(v):
     v.prove("names", list(odesys.names) == ["C", "A", "B"] and list(odesys.param_names) == [])
     for e, want, s in zip(odesys.exprs, (r2 - r1, -r2 + 2 * r1, -r2), "CAB"):
         v.prove_identity("rhs_" + s, e, want)
+    # the same constant given by NAME and bound to a quantity through substitutions: 'substituting changes only which symbols are free', so the
+    # quantity b [ku2] must arrive in registry units exactly like the inlined one (b * si(ku2) * si(registry conc) * si(registry time))
+    b = v.real("k2_bound_by_substitution", lo=1e-9, hi=1e9)
+    rsys_n = ReactionSystem([Reaction({"A": 1, "B": 1}, {"C": 1}, "kAB", checks=()), Reaction({"C": 1}, {"A": 2}, MassAction([k1 * ku1]), checks=())],
+                            [Substance(s) for s in "CAB"], checks=())
+    for label, incl in (("name_bound_to_a_quantity.free", False), ("name_bound_to_a_quantity.inlined", True)):
+        on, xn = v.call(get_odesys, rsys_n, unit_registry=reg, include_params=incl, substitutions={"kAB": b * ku2}, SymbolicSys=FakeSymbolicSys)
+        yn = dict(zip(on.names, on.dep))
+        rb = b * si_value(ku2) * reg_c * reg_t * yn["A"] * yn["B"]
+        r1n = k1 * si_value(ku1) * reg_t * yn["C"]
+        v.prove(label + ".names", list(on.names) == ["C", "A", "B"] and len(on.param_names) == 0)
+        for e, want, s in zip(on.exprs, (rb - r1n, -rb + 2 * r1n, -rb), "CAB"):
+            v.prove_identity(label + ".rhs_" + s, e, want)
 
 
 @harness("C04", "_create_odesys.names_are_substance_keys", functions=[ODE + ":_create_odesys"], kind="shape-bounded", samples=0, max_paths=300)
@@ -563,7 +671,7 @@ def _(v):
     v.prove("rhs", SP.conj([v.eq(o.exprs[0], -n * r), v.eq(o.exprs[1], r)]))
 
 
-@harness("C04", "get_odesys.nested_unique_keys", functions=[ODE + ":get_odesys", ODE + ":get_odesys.<locals>._reg_unique"], kind="shape-bounded", div_mode="assume", samples=0, max_paths=400)
+@harness("C04", "get_odesys.nested_unique_keys", functions=[ODE + ":get_odesys", ODE + ":get_odesys.<locals>._reg_unique", ODE + ":get_odesys.<locals>.reaction_rates"], kind="shape-bounded", div_mode="assume", samples=0, max_paths=400)
 def _(v):
     """'keeping rate constants as free parameters': EVERY unique key of a rate expression becomes a parameter, also the key of an expression nested
     inside another one that has a key of its own; binding them reproduces the inlined right-hand side"""
@@ -593,64 +701,146 @@ def _(v):
         v.assume(p["temperature"] > 1)
         k = p["A_outer"] * sym_exp(-(p["E_inner"] * 2) / p["temperature"])
         v.prove("rhs_in_the_free_symbols", SP.conj([v.eq(o.exprs[0], -k * y["A"]), v.eq(o.exprs[1], k * y["A"])]))
+        v.prove("rate_exprs_cb_in_the_free_symbols", len(o.cb_exprs) == 1 and v.eq(o.cb_exprs[0], k * y["A"]))
         v.prove("registered_values", SP.conj([x["unique"]["A_outer"] == A0, x["unique"]["E_inner"] == E]))
+
+
+@harness("C04", "rate_law_that_is_not_mass_action", functions=[ODE + ":get_odesys", ODE + ":get_odesys.<locals>.dydt", ODE + ":get_odesys.<locals>.reaction_rates", ODE + ":get_odesys.<locals>._reg_unique",
+                                                             ODE + ":_create_odesys", "chempy.reactionsystem:ReactionSystem.rates"], kind="shape-bounded", div_mode="assume", samples=0, max_paths=400)
+def _(v):
+    """'the vector of reaction rates' is whatever rate law the reaction carries, not only mass action: a Michaelis-Menten law Vmax*[S]/(Km + [S]) on
+    n S -> P gives d[S]/dt = -n*rate, d[P]/dt = rate with NO factor [S]**n (the reaction order does not enter a law that is not mass action);
+    inlined, with both constants kept free (binding them reproduces the inlined rhs), per reaction, and through the alternative builder"""
+    import z3
+    from chempy.kinetics.ode import get_odesys, _create_odesys
+    from chempy.kinetics.rates import RateExpr
+    from chempy.chemistry import Reaction, Substance
+    from chempy.reactionsystem import ReactionSystem
+
+    class MM(RateExpr):
+        argument_names = ("Vmax", "Km")
+
+        def __call__(self, variables, backend=None, **kwargs):
+            Vmax, Km = self.all_args(variables, backend=backend, **kwargs)
+            return Vmax * variables["S"] / (Km + variables["S"])
+    V, K = v.real("Vmax", lo=0.1, hi=9), v.real("Km", lo=0.1, hi=9)
+    n = v.int("nu", lo=1, hi=3)
+    rsys = ReactionSystem([Reaction({"S": n}, {"P": 1}, MM([V, K], unique_keys=("Vmax", "Km")), checks=())], [Substance("P"), Substance("S")], checks=())
+    law = lambda Vm, Km, S: Vm * S / (Km + S)
+    yS = Sym(z3.Real("y_S"))      # the symbol FakeSymbolicSys gives the concentration of S; a concentration is not negative, so Km + [S] > 0
+    v.assume(yS >= 0)
+    o, x = v.call(get_odesys, rsys, SymbolicSys=FakeSymbolicSys)
+    y = dict(zip(o.names, o.dep))
+    v.prove("inlined.names_and_no_parameters", list(o.names) == ["P", "S"] and len(o.param_names) == 0)
+    v.prove("inlined.rhs", SP.conj([v.eq(o.exprs[0], law(V, K, y["S"])), v.eq(o.exprs[1], -n * law(V, K, y["S"]))]))
+    v.prove("inlined.one_rate_per_reaction", len(o.cb_exprs) == 1 and v.eq(o.cb_exprs[0], law(V, K, y["S"])))
+    o2, x2 = v.call(get_odesys, rsys, include_params=False, SymbolicSys=FakeSymbolicSys)
+    v.prove("free.both_constants_are_parameters", sorted(o2.param_names) == ["Km", "Vmax"], detail=repr(o2.param_names))
+    if sorted(o2.param_names) == ["Km", "Vmax"]:
+        y2 = dict(zip(o2.names, o2.dep))
+        p2 = dict(zip(o2.param_names, o2.params))
+        v.assume(p2["Km"] > 0)
+        v.prove("free.rhs_in_the_free_symbols", SP.conj([v.eq(o2.exprs[0], law(p2["Vmax"], p2["Km"], y2["S"])), v.eq(o2.exprs[1], -n * law(p2["Vmax"], p2["Km"], y2["S"]))]))
+        v.prove("free.registered_values", sorted(x2["unique"]) == ["Km", "Vmax"] and SP.conj([x2["unique"]["Vmax"] == V, x2["unique"]["Km"] == K]))
+        v.prove("free.one_rate_per_reaction", len(o2.cb_exprs) == 1 and v.eq(o2.cb_exprs[0], law(p2["Vmax"], p2["Km"], y2["S"])))
+    # the alternative builder, with the caller's own symbols
+    psyms = OrderedDict((k, Sym(z3.Real("P_" + k))) for k in ("Vmax", "Km"))
+    ssyms = OrderedDict((k, Sym(z3.Real("Y_" + k))) for k in ("P", "S"))
+    t = Sym(z3.Real("T_time"))
+    v.assume(t != 0)
+    for other in list(ssyms.values()) + list(psyms.values()):
+        v.assume(other != t)
+    v.assume(ssyms["S"] >= 0)
+    v.assume(psyms["Km"] > 0)
+    o3, x3 = v.call(_create_odesys, rsys, substance_symbols=ssyms, parameter_symbols=psyms, backend=FakeBackend(), SymbolicSys=CapturingSys, time_symbol=t)
+    w = law(psyms["Vmax"], psyms["Km"], ssyms["S"])
+    v.prove("alternative_builder.rhs", list(o3.names) == ["P", "S"] and SP.conj([v.eq(o3.exprs[0], w), v.eq(o3.exprs[1], -n * w)]))
 
 
 @harness("C04", "name_clashes_are_refused", functions=[ODE + ":_create_odesys", ODE + ":get_odesys"], kind="data")
 def _(v):
     """'dependent-variable and parameter names matching substance keys and parameter keys': a system whose named rate constant has the name of a
-    substance (or of the time variable) cannot be represented -- one symbol would stand for both -- and is refused by both builders, never
-    answered with a right-hand side in which the constant IS the concentration (-A**2 for 'A -> B; k named A')"""
-    from chempy.chemistry import Substance
+    substance (or of the time variable) must not be represented with ONE symbol standing for both: each builder either refuses it (today's
+    behaviour) or answers with the kinetic model in pairwise different symbols, never with a right-hand side in which the constant IS the
+    concentration (-A**2 for 'A -> B; k named A') or the time"""
+    import sympy
+    from chempy.chemistry import Substance, Reaction
     from chempy.reactionsystem import ReactionSystem
     from chempy.kinetics.ode import _create_odesys, get_odesys
-    answered = []
-    for text in ("A -> B; 'A'", "A -> B; 'B'", "A -> B; 'k1'\nB -> C; 'A'"):
+    from chempy.kinetics.rates import MassAction
+
+    def outcome(build, want):
+        """'' when the call is refused (ANY exception: what matters is that no right-hand side is returned; for get_odesys the exception is raised by
+        pyodesys, whose exception classes are not ours to pin) or answered with the kinetic model written in pairwise different symbols
+        (want(y, p) -> {substance key: rhs}; None = no correct answer exists); otherwise a description of the wrong answer"""
+        try:
+            o, _e = build()
+        except Exception:
+            return ""
+        try:
+            if want is None:
+                return "answered: %s" % (o.exprs,)
+            syms = list(o.dep) + list(o.params) + [o.indep]
+            if len(set(syms)) != len(syms):
+                return "one symbol stands for two things: dep=%s params=%s indep=%s exprs=%s" % (o.dep, o.params, o.indep, o.exprs)
+            w = want(dict(zip(o.names, o.dep)), dict(zip(o.param_names, o.params)))
+            if list(o.names) != list(w) or len(o.exprs) != len(w):
+                return "names %r" % (o.names,)
+            wrong = [(n, str(e)) for n, e in zip(o.names, o.exprs) if sympy.expand(e - w[n]) != 0]
+            return "wrong rhs: %r" % wrong if wrong else ""
+        except Exception as ex:
+            return "answer cannot be read: %r" % ex
+
+    both = lambda rs: (("_create_odesys", lambda: _create_odesys(rs)), ("get_odesys", lambda: get_odesys(rs, include_params=False)))
+    # the only correct answer keeps the constant called 'A' / 'B' apart from the concentration of A / B
+    cases = (("A -> B; 'A'", lambda y, p: OrderedDict([("A", -p["A"] * y["A"]), ("B", p["A"] * y["A"])])),
+             ("A -> B; 'B'", lambda y, p: OrderedDict([("A", -p["B"] * y["A"]), ("B", p["B"] * y["A"])])),
+             ("A -> B; 'k1'\nB -> C; 'A'", lambda y, p: OrderedDict([("A", -p["k1"] * y["A"]), ("B", p["k1"] * y["A"] - p["A"] * y["B"]), ("C", p["A"] * y["B"])])))
+    bad = []
+    for text, want in cases:
         rs = ReactionSystem.from_string(text, substance_factory=Substance)
-        for label, build in (("_create_odesys", lambda: _create_odesys(rs)), ("get_odesys", lambda: get_odesys(rs, include_params=False))):
-            try:
-                o, _e = build()
-                answered.append((text, label, str(o.exprs)))
-            except ValueError:
-                pass
-            except Exception as ex:
-                answered.append((text, label, repr(ex)[:80]))
-    v.prove("constant_named_like_a_substance", not answered, detail=repr(answered[:3]))
+        for label, build in both(rs):
+            r = outcome(build, want)
+            if r:
+                bad.append((text, label, r[:200]))
+    v.prove("constant_named_like_a_substance", not bad, detail=repr(bad[:3]))
     # the same through the DEFAULT configuration of get_odesys (constants inlined): a unique key that is also a substance key (or 'time') would be
     # looked up among the variables and come back as the concentration (the time); either the call is refused or the stored value 3.0 is used
-    from chempy.chemistry import Reaction
-    from chempy.kinetics.rates import MassAction
     inlined = []
     for clash in ("B", "A", "time"):
         rs2 = ReactionSystem([Reaction({"A": 1}, {"B": 1}, MassAction([3.0], unique_keys=(clash,)))], "A B", substance_factory=Substance)
-        try:
-            o, _e = get_odesys(rs2)
-            yA = o.dep[0]
-            if [e.expand() for e in o.exprs] != [(-3.0 * yA).expand(), (3.0 * yA).expand()]:
-                inlined.append((clash, str(o.exprs)))
-        except (ValueError, KeyError):
-            pass
-        except Exception as ex:
-            inlined.append((clash, repr(ex)[:80]))
+        r = outcome(lambda: get_odesys(rs2), lambda y, p: OrderedDict([("A", -3.0 * y["A"]), ("B", 3.0 * y["A"])]))
+        if r:
+            inlined.append((clash, r[:200]))
     for text in ("A -> B; 'A'", "A -> B; 'B'"):
-        try:
-            o, _e = get_odesys(ReactionSystem.from_string(text, substance_factory=Substance))
-            inlined.append((text, str(o.exprs)))
-        except (ValueError, KeyError):
-            pass
-        except Exception as ex:
-            inlined.append((text, repr(ex)[:80]))
+        # a NAMED constant without a value cannot be inlined: no correct answer exists
+        r = outcome(lambda: get_odesys(ReactionSystem.from_string(text, substance_factory=Substance)), None)
+        if r:
+            inlined.append((text, r[:200]))
     v.prove("unique_key_named_like_a_substance_or_time_with_constants_inlined", not inlined, detail=repr(inlined[:3]))
-    rs = ReactionSystem.from_string("A -> B; 't'", substance_factory=Substance)
-    try:
-        o, _e = _create_odesys(rs)
-        ok, det = False, str(o.exprs)
-    except ValueError:
-        ok, det = True, ""
-    v.prove("constant_named_like_the_time_variable", ok, detail=det)
+    # a constant whose name is that of the TIME variable (whatever the builder calls it: 't', 'time', pyodesys' 'x'): the property-level statement is
+    # 'the time symbol is different from every parameter and substance symbol and the rhs is -p*[A], or the call is refused'
+    bad = []
+    for name in ("t", "time", "x"):
+        rs = ReactionSystem.from_string("A -> B; '%s'" % name, substance_factory=Substance)
+        for label, build in both(rs):
+            r = outcome(build, lambda y, p: OrderedDict([("A", -p[name] * y["A"]), ("B", p[name] * y["A"])]))
+            if r:
+                bad.append((name, label, r[:200]))
+    v.prove("constant_named_like_the_time_variable", not bad, detail=repr(bad[:3]))
+    # and names that do not clash are answered (by both builders, so that 'refused' above is not the answer to everything), with exactly these
+    # parameters (no order of the parameters is part of the statement)
     rs = ReactionSystem.from_string("A -> B; 'k'\nB -> C; 'k2'", substance_factory=Substance)
-    o, _e = _create_odesys(rs)
-    v.prove("distinct_names_are_accepted", list(o.names) == ["A", "B", "C"] and list(o.param_names) == ["k", "k2"])
+    bad = []
+    for label, build in both(rs):
+        try:
+            o, _e = build()
+            r = outcome(lambda: (o, _e), lambda y, p: OrderedDict([("A", -p["k"] * y["A"]), ("B", p["k"] * y["A"] - p["k2"] * y["B"]), ("C", p["k2"] * y["B"])]))
+            if r or sorted(o.param_names) != ["k", "k2"]:
+                bad.append((label, r, list(o.param_names)))
+        except Exception as ex:
+            bad.append((label, repr(ex)[:200]))
+    v.prove("distinct_names_are_accepted", not bad, detail=repr(bad))
 
 
 @harness("C04", "unique_keys_behind_plain_arguments", functions=[ODE + ":get_odesys", ODE + ":get_odesys.<locals>._reg_unique"], kind="data")
@@ -681,3 +871,138 @@ def _(v):
         v.prove("bound_keys_give_the_model_value", not bad, detail=repr(bad))
     except Exception as ex:
         v.prove("all_nested_keys_are_parameters", False, detail=repr(ex)[:300])
+
+
+def _native_mismatch(build, names, pnames, want, unique=None, rtol=None, also=None):
+    """for the data harnesses: runs build() -> (odesys, extra) natively (sympy) and compares with the hand-written kinetic model
+    want(y, p, t) -> [rhs per substance, in the order of `names`] written in the system's OWN symbols (looked up by name, so that neither the order of
+    the parameters nor the spelling of the symbols matters). Returns '' when names, the SET of parameter names, the rhs (exact, through sympy) and
+    -- if given -- the registered values agree, else a description; an exception of the code under test is a description as well.
+    rtol: where floating point unit conversions are involved the two sides are compared as numbers (relative tolerance) at two fixed points;
+    also(odesys, extra) -> '' or a description: one more thing to look at in the answer"""
+    import sympy
+    try:
+        o, x = build()
+        if list(o.names) != list(names):
+            return "names %r" % (o.names,)
+        if sorted(o.param_names) != sorted(pnames) or len(o.params) != len(pnames):
+            return "parameters %r" % (o.param_names,)
+        w = want(dict(zip(o.names, o.dep)), dict(zip(o.param_names, o.params)), o.indep)
+        if len(o.exprs) != len(w):
+            return "%d equations" % len(o.exprs)
+        if rtol is None:
+            wrong = [(n, str(e), str(we)) for n, e, we in zip(o.names, o.exprs, w) if sympy.simplify(e - we) != 0]
+        else:
+            wrong = []
+            syms = list(o.dep) + list(o.params) + [o.indep]
+            for point in ([0.75 + 0.5 * i for i in range(len(syms))], [2.5 - 0.125 * i * i for i in range(len(syms))]):
+                at = dict(zip(syms, point))
+                for n, e, we in zip(o.names, o.exprs, w):
+                    a, b_ = float(sympy.sympify(e).subs(at)), float(sympy.sympify(we).subs(at))
+                    if not abs(a - b_) <= rtol * abs(b_):
+                        wrong.append((n, a, b_))
+        if wrong:
+            return "rhs %r" % (wrong,)
+        if unique is not None and dict(x["unique"]) != unique:
+            return "registered values %r" % (dict(x["unique"]),)
+        return also(o, x) if also is not None else ""
+    except Exception as ex:
+        return "raised %r" % (ex,)
+
+
+@harness("C04", "unique_keys_of_every_shape", functions=[ODE + ":get_odesys", ODE + ":get_odesys.<locals>._reg_unique"], kind="data")
+def _(v):
+    """'keeping rate constants as free parameters changes only which symbols are free', for the shapes of rate expression that the other harnesses
+    do not have: a constant that is a bare symbol (no value: nothing to register but the name), an inner expression given without arguments (all
+    of its keys are parameters, without values), fewer unique keys than arguments (the keyed argument becomes a parameter, the other one stays the
+    number it is). 2 A -> B throughout: rate = k*[A]**2, d[A]/dt = -2*rate, d[B]/dt = rate; Arrhenius: k = Aa*exp(-Ea/T)"""
+    import sympy
+    from chempy.chemistry import Reaction
+    from chempy.reactionsystem import ReactionSystem
+    from chempy.kinetics.ode import get_odesys
+    from chempy.kinetics.rates import MassAction, Arrhenius
+    from chempy.util._expr import Symbol
+    mk = lambda param: ReactionSystem([Reaction({"A": 2}, {"B": 1}, param)], "A B")
+    two = lambda r: [-2 * r, r]
+    rs = mk(MassAction([Symbol(unique_keys=("k",))]))
+    r = _native_mismatch(lambda: get_odesys(rs, include_params=False), ["A", "B"], ["k"], lambda y, p, t: two(p["k"] * y["A"] ** 2), unique={"k": None})
+    v.prove("bare_symbol", not r, detail=r)
+    rs2 = mk(MassAction(Arrhenius(unique_keys=("Aa", "Ea"))))
+    r = _native_mismatch(lambda: get_odesys(rs2, include_params=False), ["A", "B"], ["temperature", "Aa", "Ea"],
+                         lambda y, p, t: two(p["Aa"] * sympy.exp(-p["Ea"] / p["temperature"]) * y["A"] ** 2), unique={"Aa": None, "Ea": None})
+    v.prove("inner_expression_without_arguments", not r, detail=r)
+    rs3 = mk(MassAction(Arrhenius([3.0, 500.0], unique_keys=("Aa",))))
+    r = _native_mismatch(lambda: get_odesys(rs3, include_params=False), ["A", "B"], ["temperature", "Aa"],
+                         lambda y, p, t: two(p["Aa"] * sympy.exp(-500.0 / p["temperature"]) * y["A"] ** 2), unique={"Aa": 3.0})
+    v.prove("fewer_keys_than_arguments.free", not r, detail=r)
+    r = _native_mismatch(lambda: get_odesys(rs3), ["A", "B"], ["temperature"], lambda y, p, t: two(3.0 * sympy.exp(-500.0 / p["temperature"]) * y["A"] ** 2), unique={})
+    v.prove("fewer_keys_than_arguments.inlined", not r, detail=r)
+
+
+@harness("C04", "get_odesys.unit_registry.constants_namespace", functions=[ODE + ":get_odesys"], kind="data")
+def _(v):
+    """'substituting variables changes only which symbols are free', with a unit registry: a parameter key (temperature) bound to a QUANTITY -- by
+    the constants namespace or by a substitution -- arrives in the rate expression as a number in registry units. A -> B with
+    k = 1e10/s * exp(-4000 K / T), T = 300 K, in a registry whose time unit is the minute: k = 6e11 * exp(-4000/300) per minute, no free parameter;
+    with nothing bound the temperature is the one parameter"""
+    import math
+    import sympy
+    from chempy.chemistry import Reaction
+    from chempy.reactionsystem import ReactionSystem
+    from chempy.kinetics.ode import get_odesys
+    from chempy.kinetics.rates import MassAction, Arrhenius
+    from chempy.units import SI_base_registry, default_units as u
+    reg = dict(SI_base_registry, time=u.minute)
+    rs = ReactionSystem([Reaction({"A": 1}, {"B": 1}, MassAction(Arrhenius([1e10 / u.s, 4000 * u.K])))], "A B")
+    k = 1e10 * 60 * math.exp(-4000.0 / 300.0)
+    bound = lambda y, p, t: [-k * y["A"], k * y["A"]]
+    r = _native_mismatch(lambda: get_odesys(rs, unit_registry=reg, constants=_Constants(temperature=300 * u.K)), ["A", "B"], [], bound, rtol=1e-12)
+    v.prove("bound_by_the_namespace", not r, detail=r)
+    r = _native_mismatch(lambda: get_odesys(rs, unit_registry=reg, substitutions={"temperature": 300 * u.K}), ["A", "B"], [], bound, rtol=1e-12)
+    v.prove("bound_by_a_substitution", not r, detail=r)
+    r = _native_mismatch(lambda: get_odesys(rs, unit_registry=reg), ["A", "B"], ["temperature"],
+                         lambda y, p, t: [-6e11 * sympy.exp(-4000.0 / p["temperature"]) * y["A"], 6e11 * sympy.exp(-4000.0 / p["temperature"]) * y["A"]], rtol=1e-12)
+    v.prove("nothing_bound", not r, detail=r)
+    # a NAMED rate constant bound to a quantity that is not in registry units: 2/s = 120 per minute
+    rs_n = ReactionSystem([Reaction({"A": 1}, {"B": 1}, "k")], "A B")
+    for label, kw in (("free", dict(include_params=False)), ("inlined", dict())):
+        r = _native_mismatch(lambda: get_odesys(rs_n, unit_registry=reg, substitutions={"k": 2.0 / u.s}, **kw), ["A", "B"], [], lambda y, p, t: [-120.0 * y["A"], 120.0 * y["A"]], rtol=1e-12)
+        v.prove("name_bound_to_a_quantity_in_other_units." + label, not r, detail=r)
+
+
+@harness("C04", "both_builders_same_model", functions=[ODE + ":_create_odesys", ODE + ":get_odesys"], kind="data")
+def _(v):
+    """'using the alternative builder changes only which symbols are free, never the value of the right-hand side after those symbols are bound':
+    the SAME hand-written kinetic model, written in each system's own symbols (looked up by name), is what both entry points return -- for the
+    alternative builder also when it collects the parameter keys itself (unique keys and parameter keys of rate expressions, the keys of a
+    parameter expression that overrides a name, the keys of a feed). B <-> 2 A, substances in the order B, A:
+    d[B]/dt = kf*[A]**2 - kb*[B] (+ fr*(fcB - [B])),  d[A]/dt = -2*kf*[A]**2 + 2*kb*[B] (+ fr*(fcA - [A]))"""
+    import sympy
+    from chempy.chemistry import Reaction, Substance
+    from chempy.reactionsystem import ReactionSystem
+    from chempy.kinetics.ode import get_odesys, _create_odesys
+    from chempy.kinetics.rates import MassAction, Arrhenius
+    model = lambda kf, kb, y: [kf * y["A"] ** 2 - kb * y["B"], -2 * kf * y["A"] ** 2 + 2 * kb * y["B"]]
+    sy = dict(backend=sympy)     # the rate expressions need exp: the caller of the alternative builder names the backend of the rates himself
+    # rate expression with unique keys and a parameter key
+    rs = ReactionSystem([Reaction({"A": 2}, {"B": 1}, MassAction(Arrhenius([3.0, 500.0], unique_keys=("Aa", "Ea")))), Reaction({"B": 1}, {"A": 2}, "kb")], "B A")
+    want = lambda y, p, t: model(p["Aa"] * sympy.exp(-p["Ea"] / p["temperature"]), p["kb"], y)
+    for label, build in (("alternative", lambda: _create_odesys(rs, rates_kw=sy)), ("main", lambda: get_odesys(rs, include_params=False))):
+        r = _native_mismatch(build, ["B", "A"], ["Aa", "Ea", "temperature", "kb"], want)
+        v.prove("keys_of_a_rate_expression." + label, not r, detail=r)
+    # a name overridden by an expression: its own keys take the place of the name
+    # (B = N2O4, A = NO2: substances with a composition, so that there ARE composition vectors that could be reported)
+    rs2 = ReactionSystem([Reaction({"A": 2}, {"B": 1}, "k"), Reaction({"B": 1}, {"A": 2}, "k2")], [Substance("B", composition={7: 2, 8: 4}), Substance("A", composition={7: 1, 8: 2})])
+    r = _native_mismatch(lambda: _create_odesys(rs2, parameter_expressions={"k": Arrhenius([3.0, 500.0])}, rates_kw=sy), ["B", "A"], ["temperature", "k2"],
+                         lambda y, p, t: model(3.0 * sympy.exp(-500.0 / p["temperature"]), p["k2"], y))
+    v.prove("name_overridden_by_an_expression.alternative", not r, detail=r)
+    # a feed
+    feed = ("fr", OrderedDict([("A", "fcA"), ("B", "fcB")]))
+    want = lambda y, p, t: [m + p["fr"] * (p["fc" + s_] - y[s_]) for m, s_ in zip(model(p["k"], p["k2"], y), "BA")]
+    for label, build in (("alternative", lambda: _create_odesys(rs2, rates_kw=dict(cstr_fr_fc=feed))), ("main", lambda: get_odesys(rs2, include_params=False, cstr=feed))):
+        # with a feed nothing is conserved: no vector may come along as a linear invariant of this right-hand side
+        r = _native_mismatch(build, ["B", "A"], ["k", "k2", "fr", "fcA", "fcB"], want, also=lambda o, x: "invariants reported with a feed: %r" % (o.linear_invariants,) if o.linear_invariants else "")
+        v.prove("feed." + label, not r, detail=r)
+    for label, build in (("alternative", lambda: _create_odesys(rs2)), ("main", lambda: get_odesys(rs2, include_params=False))):
+        r = _native_mismatch(build, ["B", "A"], ["k", "k2"], lambda y, p, t: model(p["k"], p["k2"], y))
+        v.prove("plain_names." + label, not r, detail=r)
